@@ -210,13 +210,16 @@ class _ProbeMarketMixin:
     def _add_order(self, order):
         REC.add("call.add", self.market_id, REC.ref_of(order), order.agent_id,
                 {"price": order.price, "vol": order.volume, "buy": order.is_buy, "ttl": order.ttl,
-                 "kind": order.kind.name})
+                 "kind": order.kind.name, "agent": order.agent_id,
+                 "stamped": order.placed_at is not None or order.order_id is not None,
+                 "mkt_ok": order.market_id == self.market_id})
         log = super()._add_order(order)
         REC.add("ret.add", self.market_id, REC.ref_of(order), log)
         return log
 
     def _cancel_order(self, cancel):
-        REC.add("call.cancel", self.market_id, REC.ref_of(cancel), cancel.order.agent_id)
+        REC.add("call.cancel", self.market_id, REC.ref_of(cancel), cancel.order.agent_id,
+                {"order_id": cancel.order.order_id, "mkt_ok": cancel.order.market_id == self.market_id})
         log = super()._cancel_order(cancel)
         REC.add("ret.cancel", self.market_id, REC.ref_of(cancel), log)
         return log
